@@ -3,7 +3,7 @@ import NimaVerif.Model.NPath
 L5 (value fragment): Python values handed to the construction API and how they are rendered.
 
 Transliteration (bug-compatible) of
-* `expression.coerce_expression`, `primitive.Primitive.__new__/_primitive_cls_from_value`,
+* `expression.coerce_expression/_float_literal`, `primitive.Primitive.__new__/_primitive_cls_from_value`,
   `primitive.*Primitive._render_value`, `float.FloatExpression.rebuild`,
   `NixExpression.add_trivia` (with empty `before`/`after`, which is what constructed objects have),
 * `list.NixList._item_requires_multiline/_auto_multiline/_inline_preview/simple_inline_preview/rebuild`,
@@ -23,7 +23,7 @@ inductive Elem where
   | none
   | bool (b : Bool)
   | int (i : Int)
-  | float (repr : Text)      -- `repr(value)` of a finite Python float
+  | float (repr : Text)      -- `repr(value)` of a finite Python float (the code spells it `floatLiteral repr`)
   | str (s : Text)
   | list (xs : List Elem)
 deriving Repr, Inhabited
@@ -62,6 +62,9 @@ def stringEscapesInterpolation : Bool := false
     before `int`: `True` is a boolean, not the integer 1). The constructors of `Elem` are these classes. -/
 def coerceOrder : List String := ["NixExpression", "None", "bool", "int", "float", "list", "str"]
 def primitiveOrder : List String := ["bool", "None", "int", "str"]
+/-- `expression._float_literal`: `if "<1>" not in text:` / `text.partition("<2>")` / the text put
+    between the mantissa and the exponent mark. -/
+def floatLiteralRule : Char × Char × Text := ('.', 'e', ['.', '0'])
 /-- `list._is_negative_number_literal`: the class tests and what each returns. -/
 def negLiteralTests : List (String × String) :=
   [("IntegerPrimitive", "value<0"), ("FloatExpression", "value.startswith:-")]
@@ -121,6 +124,13 @@ def hasInterp : Text → Bool
 
 /-! ## Rendering -/
 
+/-- `expression._float_literal(value)` given `repr(value)`: a repr without `.` (it then has an
+    exponent: `1e+16`) gets `.0` in front of the exponent mark — `text.partition("e")` is (before the
+    first `e`, `e`, after it), or (text, "", "") when there is none. -/
+def floatLiteral (r : Text) : Text :=
+  if r.contains floatLiteralRule.1 then r
+  else r.takeWhile (· != floatLiteralRule.2.1) ++ (floatLiteralRule.2.2 ++ r.dropWhile (· != floatLiteralRule.2.1))
+
 /-- `f"{self.value}"` for a Python int -/
 def pyIntStr (i : Int) : Text :=
   if i < 0 then '-' :: Nat.toDigits 10 i.natAbs else Nat.toDigits 10 i.toNat
@@ -158,10 +168,10 @@ def listText (multiline : Bool) (items : List Text) (indent : Nat) (inline : Boo
     indentor ++ ('[' :: ' ' :: itemsStr) ++ [' ', ']']
 
 /-- `list._is_negative_number_literal(coerce_expression(item))`: an `IntegerPrimitive` with
-    `value < 0`, a `FloatExpression` whose `value` (the repr) starts with `-`. -/
+    `value < 0`, a `FloatExpression` whose `value` (the literal) starts with `-`. -/
 def isNegLiteral : Elem → Bool
   | .int i => i < 0
-  | .float r => r.head? == some '-'
+  | .float r => (floatLiteral r).head? == some '-'
   | _ => false
 
 /-- `Parenthesis(value=bare).rebuild(indent, inline)` for a constructed parenthesis (empty gaps, no
@@ -175,7 +185,7 @@ def renderElem : Elem → Nat → Bool → Text
   | .none, i, inl => addTrivia litNull i inl
   | .bool b, i, inl => addTrivia (if b then litTrue else litFalse) i inl
   | .int n, i, inl => addTrivia (pyIntStr n) i inl
-  | .float r, i, inl => addTrivia r i inl
+  | .float r, i, inl => addTrivia (floatLiteral r) i inl
   | .str s, i, inl =>
     addTrivia (stringQuotes.1 ++ escapeNix stringEscapesInterpolation s ++ stringQuotes.2) i inl
   | .list xs, i, inl =>
